@@ -622,7 +622,10 @@ func (s *SQLiteStore) enqueueWithLimit(env Envelope, headersJSON any, traceJSON 
 		return err
 	}
 
-	if count >= s.maxDepth {
+	// Evict until the new item fits. The active count can exceed max_depth
+	// after an operator requeue, so one eviction is not always enough; the
+	// batch path and the memory store make room the same way.
+	for count >= s.maxDepth {
 		if s.dropPolicy == "drop_oldest" {
 			dropped, err := s.dropOldestQueued(ctx, conn)
 			if err != nil {
